@@ -8,8 +8,8 @@ from ..core import digest, build
 from ..fmt import zipatch as zp
 
 LEVEL = "exploration"
-RULE = ("abstract op lists serialised to the reference wire format and interpreted by a Python model: all sequences of length <= 2 (quick) / <= 3 (thorough, sharded) over a "
-        "concrete 12-op alphabet (A x3, D, E, H x3, F/A x2, F/D, F/M|F/R) after a T for platforms win32/ps3/ps4, random sequences of 5..60 ops with arbitrary ids / offsets / "
+RULE = ("abstract op lists serialised to the reference wire format and interpreted by a Python model: all short sequences over a "
+        "concrete 12-op alphabet (A x3, D, E, H x3, F/A x2, F/D, F/M|F/R) after a T for platforms win32/ps3/ps4 (quick: length <= 3; thorough: <= 4), random sequences of 5..60 ops with arbitrary ids / offsets / "
         "block counts / raw+deflated multi-block files / FHDR v2,v3 / APLY / ADIR / DELD / X / I, chains of 2..4 patches, all applied to random pre-existing trees (files overlapping "
         "the written regions, files at AddFile targets, unrelated files) through ZiPatch::apply, GameData::apply_patch and BootData::apply_patch. Oracle: apply returns Ok, every regular "
         "file byte-identical to the model, file set equal, directories required <= actual <= required+optional. non-trivial = patch with >= 1 tree-changing op; distinct = digest of the wire bytes + tree")
@@ -20,8 +20,8 @@ ASSUMPTIONS = ["reference ZiPatch semantics as implemented by XIVLauncher's ZiPa
 
 def plan(tier):
     if tier == "quick":
-        return [("debug", 8, dict(maxlen=2, nrand=14, nchain=5, strace=0))]
-    return [("debug", 16, dict(maxlen=3, nrand=200, nchain=60, strace=12)), ("release", 4, dict(maxlen=2, nrand=150, nchain=40, strace=0)),
+        return [("debug", 8, dict(maxlen=3, nrand=40, nchain=12, strace=0))]
+    return [("debug", 16, dict(maxlen=4, nrand=200, nchain=60, strace=12)), ("release", 4, dict(maxlen=3, nrand=150, nchain=40, strace=0)),
             ("asan", 4, dict(maxlen=1, nrand=40, nchain=10, strace=0))]
 
 
@@ -232,7 +232,7 @@ def rand_ops(rng, plat):
         elif k < 0.75:
             chunks = []
             for _ in range(rng.choice([0, 1, 1, 2, 4])):
-                n = rng.choice([1, 15, 112, 113, 127, 128, 129, 1000, 15999, 16000])
+                n = rng.choice([1, 15, 112, 113, 127, 128, 129, 1000, 15999, 16000, 16001, 20000, 31000])
                 data = rng.randbytes(n) if rng.random() < 0.5 else bytes([rng.randrange(256)]) * n
                 chunks.append((data, rng.random() < 0.5))
             ops.append(dict(op="FA", path=rng.choice(fpaths), offset=rng.choice([0, 0, 0, 100, 5000]), chunks=chunks))
@@ -264,6 +264,8 @@ def shard(ctx):
                     continue
                 if L == 3 and plat != 0 and (idx // ctx.nshards) % 3:
                     continue  # length-3 sequences: all for win32, a third for the others
+                if L == 4 and (plat != 0 or (idx // ctx.nshards) % 2):
+                    continue  # length-4 sequences: half of them, win32 only
                 alpha = alphabet(rng, plat)
                 ops = [dict(op="T", platform=plat)] + [alpha[i] for i in combo] + [dict(op="EOF")]
                 files, dirs = pre_tree(rng, plat, rich=rng.random() < 0.6)
